@@ -22,6 +22,8 @@ def run(ctx, report):
     report.section("adjust_caption_timing effects", retime_effects, ctx, report)
     report.section("adjust_caption_timing", retime, ctx, report, folder)
     report.section("merge", merging, ctx, report)
+    from . import merge_fold
+    report.section("retiming on a grid", merge_fold.retime, ctx, report)
 
 
 def retime_effects(ctx, report):
